@@ -354,3 +354,40 @@ Theorem C04_semaphore_release_wakes_head_protocol : forall n s w rest s' r, SRea
   r = RDone [w] /\ s_wait s' = rest /\ s_granted s' = s_granted s ++ [w] /\ sfree s' = 0.
 Proof. exact sem_release_wakes_head. Qed.
 Print Assumptions C04_semaphore_release_wakes_head_protocol.
+
+(* LimitedRegion (internal/syncutil/limit.go: the `ended` flag, Start = Acquire unless started, End =
+   Release unless ended) over the semaphore model (Model/CopyImplRegion.v).  `RReach n x`: x is reachable
+   from n free permits and all regions ended by any sequence of Start / End calls of any regions
+   (idempotent repetitions included), wake-ups of blocked Starts and cancellations. *)
+From Oras Require Import Model.CopyImplRegion Proofs.CopyImplRegion.
+(* End() of a started region always succeeds: the semaphore never panics "released more than held" *)
+Theorem C04_region_end_never_panics_protocol : forall n x w, RReach n x -> r_reg x w = RStarted ->
+  exists x', rstep x (REnd w) = Some x' /\ r_reg x' w = REnded.
+Proof. exact region_end_never_panics. Qed.
+Print Assumptions C04_region_end_never_panics_protocol.
+
+(* End on an ended region and Start on a started region do nothing *)
+Theorem C04_region_idempotent_protocol : forall x w,
+  (r_reg x w = REnded -> rstep x (REnd w) = Some x) /\
+  (forall d, r_reg x w = RStarted -> rstep x (RStart w d) = Some x).
+Proof. exact region_idempotent. Qed.
+Print Assumptions C04_region_idempotent_protocol.
+
+(* the permits held are exactly the started regions, and at most n regions are started at any time *)
+Theorem C04_region_permits_protocol : forall n x, RReach n x ->
+  exists l, NoDup l /\ (forall w, In w l <-> r_reg x w = RStarted) /\ length l = s_held (r_sem x) /\ length l <= n.
+Proof. exact region_permits. Qed.
+Print Assumptions C04_region_permits_protocol.
+
+(* K = 1: region 0 starts, region 1 blocks, End of 0 (twice: idempotent) wakes 1, which starts *)
+Example ex_region :
+  match rstep (rinit 1) (RStart 0 false) with
+  | Some x1 => match rstep x1 (RStart 1 false) with
+    | Some x2 => r_reg x2 1 = RPending /\ match rstep x2 (REnd 0) with
+      | Some x3 => rstep x3 (REnd 0) = Some x3 /\ match rstep x3 (RWake 1 false) with
+        | Some x4 => r_reg x4 1 = RStarted /\ r_reg x4 0 = REnded /\ s_held (r_sem x4) = 1
+        | None => False end
+      | None => False end
+    | None => False end
+  | None => False end.
+Proof. vm_compute. repeat split; reflexivity. Qed.
